@@ -26,39 +26,47 @@ fn c_new() {
     assert!(eq8(&c.key, &spec::words::<8>(&k)));
 }
 
-// encrypt_block == 6.1.3 for every state (key words) and block, over the contract of belt_block_raw.
+// encrypt_block for every state (key words) and block: Y = octets(BLOCK(words(X), self.key)) where BLOCK is the
+// contract of belt_block_raw (an uninterpreted function of (x, key) here; c_belt_block_raw proves BLOCK is
+// belt-block of 6.1.3, so the right-hand side is bcref::belt::encrypt on bytes by definition).
 // @ob name=c_encrypt_block props=C07,C20 fn=belt_block::BeltBlock::encrypt_block uses=c_belt_block_raw,c_to_u32,c_from_u32 timeout=300
 #[kani::proof]
-#[kani::stub(belt_block_raw, spec_block_raw)]
+#[kani::stub(belt_block_raw, ufb::block_keyed)]
 #[kani::unwind(34)]
 fn c_encrypt_block() {
     let c = any_belt();
     let b: [u8; 16] = kani::any();
     let mut blk = Array(b);
     cipher::BlockCipherEncrypt::encrypt_block(&c, &mut blk);
-    assert!(eq_bytes(&blk.0, &spec::octets16(&spec::encrypt_words(spec::words::<4>(&b), &c.key))));
+    assert!(eq_bytes(&blk.0, &spec::octets16(&ufb::block_keyed(spec::words::<4>(&b), &c.key))));
 }
 
-// decrypt_block == 6.1.4 for every state and block, over the contracts of g5/g13/g21.
+// decrypt_block == 6.1.4 for every state and block, over the contracts of g5/g13/g21: the real function's 56
+// G-calls are recorded, the reference must ask the same questions in the same order (transcript oracle, lib.rs `tr`).
 // @ob name=c_decrypt_block props=C07,C20 fn=belt_block::BeltBlock::decrypt_block uses=c_g5,c_g13,c_g21,c_key_idx,c_to_u32,c_from_u32 timeout=600
 #[kani::proof]
 #[kani::stub(g5, tr::g5)]
 #[kani::stub(g13, tr::g13)]
 #[kani::stub(g21, tr::g21)]
 #[kani::stub(bcref::belt::g, tr::g)]
-#[kani::unwind(130)]
+#[kani::unwind(34)]
 fn c_decrypt_block() {
     let c = any_belt();
     let b: [u8; 16] = kani::any();
     let mut blk = Array(b);
     cipher::BlockCipherDecrypt::decrypt_block(&c, &mut blk);
-    assert!(eq_bytes(&blk.0, &spec::octets16(&spec::decrypt_words(spec::words::<4>(&b), &c.key))));
+    assert!(tr::recorded() == 56);
+    tr::replay(tr::FORWARD);
+    let x = spec::decrypt_words(spec::words::<4>(&b), &c.key);
+    assert!(tr::exhausted());
+    assert!(eq_bytes(&blk.0, &spec::octets16(&x)));
 }
 
-// Public API on bytes, for every 32-byte key and every 16-byte block.
+// Public API on bytes, for every 32-byte key and every 16-byte block (same modular form as above; with
+// c_belt_block_raw the right-hand side is bcref::belt::encrypt(&k, &b)).
 // @ob name=c_api_enc props=C07,C20 fn=belt_block::BeltBlock::new,belt_block::BeltBlock::encrypt_block,belt_block::BeltBlock::encrypt_with_backend uses=c_belt_block_raw timeout=300
 #[kani::proof]
-#[kani::stub(belt_block_raw, spec_block_raw)]
+#[kani::stub(belt_block_raw, ufb::block_keyed)]
 #[kani::unwind(34)]
 fn c_api_enc() {
     let k: [u8; 32] = kani::any();
@@ -66,7 +74,7 @@ fn c_api_enc() {
     let c: BeltBlock = KeyInit::new(&Array(k));
     let mut blk = Array(b);
     cipher::BlockCipherEncrypt::encrypt_block(&c, &mut blk);
-    assert!(eq_bytes(&blk.0, &spec::encrypt(&k, &b)));
+    assert!(eq_bytes(&blk.0, &spec::octets16(&ufb::block_keyed(spec::words::<4>(&b), &spec::words::<8>(&k)))));
 }
 // @ob name=c_api_dec props=C07,C20 fn=belt_block::BeltBlock::new,belt_block::BeltBlock::decrypt_block,belt_block::BeltBlock::decrypt_with_backend uses=c_g5,c_g13,c_g21,c_key_idx timeout=600
 #[kani::proof]
@@ -74,31 +82,40 @@ fn c_api_enc() {
 #[kani::stub(g13, tr::g13)]
 #[kani::stub(g21, tr::g21)]
 #[kani::stub(bcref::belt::g, tr::g)]
-#[kani::unwind(130)]
+#[kani::unwind(34)]
 fn c_api_dec() {
     let k: [u8; 32] = kani::any();
     let b: [u8; 16] = kani::any();
     let c: BeltBlock = KeyInit::new(&Array(k));
     let mut blk = Array(b);
     cipher::BlockCipherDecrypt::decrypt_block(&c, &mut blk);
-    assert!(eq_bytes(&blk.0, &spec::decrypt(&k, &b)));
+    assert!(tr::recorded() == 56);
+    tr::replay(tr::FORWARD);
+    let x = spec::decrypt(&k, &b);
+    assert!(tr::exhausted());
+    assert!(eq_bytes(&blk.0, &x));
 }
 
 // ------------------------------------------------------------------------------------------------ C01 round trip
-// From the property's own statement on the real functions, for every state: G_5, G_13, G_21 are abstracted to an
-// uninterpreted function (the round trip holds for ANY G; licensed by c_g5/c_g13/c_g21: pure functions).
+// From the property's own statement on the real functions, for every state (key words) and block.  G_5, G_13, G_21
+// are the transcript oracle of lib.rs (`tr`): the first direction's 56 G-calls are recorded with unconstrained
+// answers, the second direction must ask the same 56 questions in REVERSE order (asserted) and then returns the
+// original block: the round trip holds for ANY pure G (licensed by c_g5/c_g13/c_g21).
 // @ob name=l_roundtrip_dec_enc props=C01,C20 kind=lemma fn=belt_block::BeltBlock::encrypt_block,belt_block::BeltBlock::decrypt_block,belt_block::belt_block_raw uses=c_g5,c_g13,c_g21 timeout=900
 #[kani::proof]
 #[kani::stub(g5, tr::g5)]
 #[kani::stub(g13, tr::g13)]
 #[kani::stub(g21, tr::g21)]
-#[kani::unwind(130)]
+#[kani::unwind(34)]
 fn l_roundtrip_dec_enc() {
     let c = any_belt();
     let b: [u8; 16] = kani::any();
     let mut blk = Array(b);
     cipher::BlockCipherEncrypt::encrypt_block(&c, &mut blk);
+    assert!(tr::recorded() == 56);
+    tr::replay(tr::BACKWARD);
     cipher::BlockCipherDecrypt::decrypt_block(&c, &mut blk);
+    assert!(tr::exhausted());
     assert!(eq_bytes(&blk.0, &b));
 }
 // @ob name=l_roundtrip_enc_dec props=C01,C20 kind=lemma fn=belt_block::BeltBlock::encrypt_block,belt_block::BeltBlock::decrypt_block,belt_block::belt_block_raw uses=c_g5,c_g13,c_g21 timeout=900
@@ -106,13 +123,16 @@ fn l_roundtrip_dec_enc() {
 #[kani::stub(g5, tr::g5)]
 #[kani::stub(g13, tr::g13)]
 #[kani::stub(g21, tr::g21)]
-#[kani::unwind(130)]
+#[kani::unwind(34)]
 fn l_roundtrip_enc_dec() {
     let c = any_belt();
     let b: [u8; 16] = kani::any();
     let mut blk = Array(b);
     cipher::BlockCipherDecrypt::decrypt_block(&c, &mut blk);
+    assert!(tr::recorded() == 56);
+    tr::replay(tr::BACKWARD);
     cipher::BlockCipherEncrypt::encrypt_block(&c, &mut blk);
+    assert!(tr::exhausted());
     assert!(eq_bytes(&blk.0, &b));
 }
 
@@ -163,14 +183,15 @@ multi_block_enc!(m_enc_blocks_1, 1);
 // @ob name=m_enc_blocks_3 props=C04,C15 kind=bounded bound="n = 3 blocks" fn=belt_block::BeltBlock::encrypt_with_backend,belt_block::BeltBlock::encrypt_block uses=c_belt_block_raw timeout=300
 multi_block_enc!(m_enc_blocks_3, 3);
 
-// Decryption: decrypt_block has its rounds inline; G_5/G_13/G_21 are the uninterpreted `ufg`.
+// Decryption: decrypt_block has its rounds inline; G_5/G_13/G_21 are the transcript oracle `tr`: the per-block calls
+// are recorded, the multi-block calls must ask the same questions block after block, in order.
 macro_rules! multi_block_dec {
     ($name:ident, $n:expr) => {
         #[kani::proof]
         #[kani::stub(g5, tr::g5)]
         #[kani::stub(g13, tr::g13)]
         #[kani::stub(g21, tr::g21)]
-        #[kani::unwind(530)]
+        #[kani::unwind(34)]
         fn $name() {
             let c = any_belt();
             let before = c.key;
@@ -186,7 +207,10 @@ macro_rules! multi_block_dec {
             let mut blocks = [Array([0u8; 16]); $n];
             let mut i = 0;
             while i < $n { blocks[i] = Array(inp[i]); i += 1; }
+            assert!(tr::recorded() == 56 * $n);
+            tr::replay(tr::FORWARD);
             cipher::BlockCipherDecrypt::decrypt_blocks(&c, &mut blocks);
+            assert!(tr::exhausted());
             let mut i = 0;
             while i < $n { assert!(eq_bytes(&blocks[i].0, &single[i])); i += 1; }
             let mut src = [Array([0u8; 16]); $n];
@@ -194,7 +218,9 @@ macro_rules! multi_block_dec {
             while i < $n { src[i] = Array(inp[i]); i += 1; }
             let g: [u8; 16] = kani::any();
             let mut dst = [Array(g); $n + 2];
+            tr::replay(tr::FORWARD);
             cipher::BlockCipherDecrypt::decrypt_blocks_b2b(&c, &src, &mut dst[1..$n + 1]).unwrap();
+            assert!(tr::exhausted());
             assert!(eq_bytes(&dst[0].0, &g) && eq_bytes(&dst[$n + 1].0, &g));
             let mut i = 0;
             while i < $n { assert!(eq_bytes(&dst[i + 1].0, &single[i]) && eq_bytes(&src[i].0, &inp[i])); i += 1; }
